@@ -261,10 +261,55 @@ def reported(e, which="short"):
     return tuple(d["matching"]), d
 
 
+def replay_special(p):
+    """Replays that need a process history: two Solvers alive at once, or a
+    re-run of an item after another item.  Returns None when `p` is an
+    ordinary single-item payload, else True (reproduced) / False."""
+    from . import interleave
+    if "interleaved_with" in p and isinstance(p["interleaved_with"], dict):
+        o = p["interleaved_with"]
+        specs = [(p["file"], p["argv"], ("short", "long")),
+                 (o["file"], o["argv"], ("short", "long"))]
+        from .explore import Env
+        obs = lprun.run_interleaved(specs, p.get("order", [0, 1]), Env([]))
+        alone = lprun.run_solver(p["file"], p["argv"], Env([]))
+        a = [lprun.mask_times(v) if isinstance(v, str) else v for _, v in obs[0]["outputs"]]
+        b = [lprun.mask_times(v) if isinstance(v, str) else v for _, v in alone["outputs"]]
+        print("--- this Solver's outputs with the other Solver alive:")
+        for x in a:
+            print(x)
+        print("--- the same Solver alone:")
+        for x in b:
+            print(x)
+        return a != b
+    if "history_last_item" in p:
+        from .explore import Env
+        o = p["history_last_item"]
+        first = lprun.run_solver(p["file"], p["argv"], Env([]))
+        lprun.run_solver(o["file"], o["argv"], Env([]))
+        again = lprun.run_solver(p["file"], p["argv"], Env([]))
+        a = [lprun.mask_times(v) if isinstance(v, str) else v for _, v in first["outputs"]]
+        b = [lprun.mask_times(v) if isinstance(v, str) else v for _, v in again["outputs"]]
+        print("--- first run:")
+        for x in a:
+            print(x)
+        print("--- re-run after %r:" % (o["argv"],))
+        for x in b:
+            print(x)
+        return a != b
+    return None
+
+
 def generic_replay(path, bad_fn=None):
     import json
     with open(path) as f:
         p = json.load(f)
+    sp = replay_special(p)
+    if sp is not None:
+        print("recorded:", p.get("what"))
+        print("REPRODUCED" if sp else "NOT REPRODUCED (the violation depends on a longer process "
+              "history than the replay file records; re-run the check)")
+        raise SystemExit(1 if sp else 0)
     obs = replay_item(p)
     print("argv:", p["argv"])
     print(p["file"])
